@@ -1738,6 +1738,59 @@ TEMPLATES = [("temporaries", _t_temporaries), ("early_return_expr", _t_early_ret
 
 
 # ------------------------------------------------------------------------------------------------
+# high fan-in family: ONE heap object referenced N times at once (boundaries of 8 and 16 bit counters)
+# ------------------------------------------------------------------------------------------------
+
+FANIN_N = [255, 256, 257, 65535, 65536, 65537, 70000]
+FANIN_KINDS = {
+    # kind -> (element type, fresh value, replacement of the local, statements that use an element `e` again)
+    "string": ("string", '(+ "label-" (int_to_string 1000))', '"none"', '(println e)\n    (println (== e (+ "label-" (int_to_string 1000))))'),
+    "array": ("array<int>", "[1000, 7, 7]", "[]", "(println (array_length e))\n    (println (at e 0))"),
+    "struct": ("P", 'P { name: (+ "label-" (int_to_string 1000)), xs: [4, 5] }', 'P { name: "none", xs: [] }', "(println e.name)\n    (println (array_length e.xs))"),
+}
+
+
+def fanin_program(kind, n, how):
+    et, fresh, repl, use = FANIN_KINDS[kind]
+    if how == "push":
+        fill = ("    let mut table: array<%s> = []\n    let mut i: int = 0\n    while (< i %d) {\n        set table (array_push table label)\n"
+                "        set i (+ i 1)\n    }\n" % (et, n))
+    else:
+        fill = "    let mut table: array<%s> = (array_new %d label)\n" % (et, n)
+    return """struct P { name: string, xs: array<int> }
+fn main() -> int {
+    let mut label: %s = %s
+%s    (println (array_length table))
+    let mut spin: int = 0
+    while (< spin SPIN) {
+        set spin (+ spin 1)
+    }
+    set label %s
+    (array_set table 0 %s)
+    (array_set table 1 %s)
+    let mut dropped: %s = (array_pop table)
+    set dropped (array_pop table)
+    set dropped (array_pop table)
+    set dropped %s
+    let other1: string = (+ "label-" (int_to_string 1001))
+    let other2: string = (+ "label-" (int_to_string 1002))
+    let e: %s = (at table 2)
+    %s
+    let e2: %s = (at table %d)
+    set label e2
+    (println (array_length table))
+    set spin 0
+    while (< spin SPIN) {
+        set spin (+ spin 1)
+    }
+    (println other1)
+    (println other2)
+    return 0
+}
+""".replace("SPIN", str(2500 if n > 1000 else 30)) % (et, fresh, fill, repl, repl, repl, et, repl, et, use, et, n - 5)
+
+
+# ------------------------------------------------------------------------------------------------
 # the check
 # ------------------------------------------------------------------------------------------------
 
@@ -1906,6 +1959,31 @@ def run(ctx):
             if judge(ctx, keyer, tally, fam, label, files, o):
                 ran += 1
 
+        # ---- high fan-in family (coarse audit: the undercount persists once the stored count has wrapped) ----
+        fitems = []
+        kinds = list(FANIN_KINDS)
+        for j, n in enumerate(FANIN_N):
+            if ctx.quick():
+                fitems.append(("string", n, "push"))
+                fitems.append((kinds[1 + j % 2], n, "array_new"))
+            else:
+                fitems += [(k, n, how) for k in kinds for how in ("push", "array_new")]
+
+        def do_fanin(it):
+            kind, n, how = it
+            files = {"main.nano": fanin_program(kind, n, how)}
+            return it, files, observe(asan, sc.sub("fanin/%s_%d_%s" % (kind, n, how)), files, every=10000 if n > 1000 else 100)
+
+        fan_ran = 0
+        fan_maxdeg = 0
+        for (kind, n, how), files, o in pmap(do_fanin, fitems):
+            if judge(ctx, keyer, tally, "fan-in", "%s x%d via %s" % (kind, n, how), files, o):
+                if o.aud.status == 0 and o.summary and int(o.summary.get("maxdeg", 0)) >= n:
+                    fan_ran += 1
+                fan_maxdeg = max(fan_maxdeg, int(o.summary.get("maxdeg", 0)))
+        if not ctx.violations:
+            ctx.require(fan_ran == len(fitems), "only %d of %d high fan-in programs reached their in-degree" % (fan_ran, len(fitems)))
+
         # ---- churn family ----
         pairs = [(K_ITER, 4 * K_ITER)] if ctx.quick() else [(K_ITER, 4 * K_ITER), (5 * K_ITER, 20 * K_ITER)]
         citems = [(name, k, k4) for name in CHURN for (k, k4) in pairs]
@@ -1950,7 +2028,9 @@ def run(ctx):
             ctx.require(len(tally.nontrivial) >= ctx.n(60, 1000), "too few non-trivial programs (%d)" % len(tally.nontrivial))
             ctx.require(not missing, "heap opcodes never executed under audit: %s" % missing)
         return ctx.finish({
-            "evaluations": len(items) + 2 * len(citems),
+            "evaluations": len(items) + 2 * len(citems) + len(fitems),
+            "fan_in_programs": len(fitems),
+            "fan_in_max_in_degree": fan_maxdeg,
             "distinct_nontrivial": len(tally.nontrivial),
             "rule": "distinct program texts (sha256 of main.nano; audit and churn families) that ran with >= 1000 audits and reached a maximum in-degree >= 2 (some object referenced from two places at once)",
             "programs_by_family": tally.by_family,
